@@ -532,6 +532,31 @@ def part_b(ctx, res):
             res.count("line_with_longest_at_the_far_end")
         same_host = (ri % 2 == 1)
         net = Net(rng, coinstates, edges, same_host=same_host)
+        # a transaction that is broadcast too early: right after the greetings the node with the longest chain submits a spend of
+        # an output that only its own branch contains; the others cannot accept it yet. It is broadcast again after convergence
+        # (below) and must then reach every pool
+        early_tx, early_origin = None, None
+        if ri % 2 == 0 and not late:
+            kbest = max(range(n_nodes), key=lambda k_: coinstates[k_].head().height)
+            csb = coinstates[kbest]
+            ub = csb.unspent_transaction_outs_by_hash[csb.current_chain_hash]
+            elsewhere = set()
+            for k_ in range(n_nodes):
+                if k_ != kbest:
+                    elsewhere |= {t_.hash() for b_ in coinstates[k_].block_by_hash.values() for t_ in b_.transactions}
+            own_only = [(r, o) for r, o in ub.items() if r.hash not in elsewhere and o.public_key.public_key in keys.pks and o.value > 1]
+            if own_only and [cs_.head().height for cs_ in coinstates].count(csb.head().height) == 1:
+                for lp_i in range(n_nodes):
+                    net.step_net(lp_i)
+                net.drain(with_steps=False)
+                r, o = own_only[0]
+                early_tx = chain.make_tx(keys, ub, [r], [(o.value - 1, 2)])
+                early_origin = kbest
+                if net.nodes[kbest].chain_manager.add_transaction_to_pool(early_tx):
+                    net.nodes[kbest].network_manager.broadcast_transaction(early_tx)
+                net.collect()
+                net.drain(with_steps=False)
+                res.count("transaction_broadcast_before_the_others_know_its_input")
         windows = net.run_to_fixpoint(late=late)
         res.count("addresses:" + ("one host, distinct ports" if same_host else "distinct hosts"))
         info = {"run": ri, "nodes": n_nodes, "edges": edges, "batch": batch, "fork": depth_kind, "late": list(late),
@@ -560,7 +585,8 @@ def part_b(ctx, res):
         if len(heads) == 1 and not net.errors:
             cs0 = net.nodes[0].chain_manager.coinstate
             u = cs0.unspent_transaction_outs_by_hash[cs0.current_chain_hash]
-            sp = [(r, o) for r, o in u.items() if o.public_key.public_key in keys.pks and o.value > 1]
+            taken = {i_.output_reference for i_ in early_tx.inputs} if early_tx is not None else set()
+            sp = [(r, o) for r, o in u.items() if o.public_key.public_key in keys.pks and o.value > 1 and r not in taken]
             if sp:
                 r, o = sp[0]
                 tx = chain.make_tx(keys, u, [r], [(o.value - 1, 1)])
@@ -574,6 +600,23 @@ def part_b(ctx, res):
                     if tx.hash() not in [t.hash() for t in lpk.chain_manager.transaction_pool]:
                         res.violations.append({**info, "kind": "a broadcast transaction did not reach node %d's pool" % k})
                 res.count("tx_flood_checked")
+        if early_tx is not None and len(heads) == 1 and not net.errors:
+            cs0 = net.nodes[0].chain_manager.coinstate
+            u0 = cs0.unspent_transaction_outs_by_hash[cs0.current_chain_hash]
+            if all(i_.output_reference in u0 for i_ in early_tx.inputs):
+                lp = net.nodes[early_origin]
+                if early_tx.hash() in [t.hash() for t in lp.chain_manager.transaction_pool]:
+                    lp.network_manager.broadcast_transaction(early_tx)          # the sender's wallet submits it again
+                elif lp.chain_manager.add_transaction_to_pool(early_tx):
+                    lp.network_manager.broadcast_transaction(early_tx)
+                net.collect()
+                net.drain(with_steps=False)
+                for k, lpk in enumerate(net.nodes):
+                    if early_tx.hash() not in [t.hash() for t in lpk.chain_manager.transaction_pool]:
+                        res.violations.append({**info, "kind": "a transaction that was first broadcast before the other nodes knew its "
+                                                               "input, and again after all nodes share a head on which it is valid, did "
+                                                               "not reach node %d's pool" % k, "tx": early_tx.serialize().hex()})
+                res.count("early_transaction_rebroadcast_checked")
         # each node relays a given block or transaction at most once (unsolicited Data per id per connection)
         for (src, dst), log in net.sent.items():
             seen = {}
@@ -581,6 +624,8 @@ def part_b(ctx, res):
                 if irt == 0:
                     seen[(kind, ident)] = seen.get((kind, ident), 0) + 1
             for (kind, ident), n in seen.items():
+                if early_tx is not None and ident == early_tx.hash() and src == early_origin:
+                    n -= 1                      # (submitted twice by its sender, by this harness)
                 if n > 1:
                     res.violations.append({**info, "kind": "node %d relayed %s %s to node %d %d times"
                                            % (src, "block" if kind == "B" else "transaction", ident[:6].hex(), dst, n)})
